@@ -59,6 +59,7 @@ type Exit struct {
 	Res  []Val
 	What string // for exceptional exits: description
 	Pos  token.Pos
+	NAss int // assumptions visible when the exit was reached (exceptional exits)
 }
 
 type unsupported struct{ msg string }
